@@ -951,9 +951,14 @@ class Curve(BaseCurve):
         for newvector, matrix in zip(newvectors, matrices):
             matrix = np.array(matrix)
             newcurve = Curve(newvector)
-            newcurve.ctrlpoints = np.dot(matrix, self.ctrlpoints)
-            if self.weights is not None:
-                newcurve.weights = np.dot(matrix, self.weights)
+            if self.weights is None:
+                newcurve.ctrlpoints = np.dot(matrix, self.ctrlpoints)
+            else:
+                weights = np.dot(matrix, self.weights)
+                points = [w * pt for w, pt in zip(self.weights, self.ctrlpoints)]
+                points = np.dot(matrix, points)
+                newcurve.ctrlpoints = [pt / w for pt, w in zip(points, weights)]
+                newcurve.weights = weights
             newcurves.append(newcurve)
         return tuple(newcurves)
 
